@@ -297,7 +297,26 @@ func (tr *trans) atAsserts(in ssa.Instruction, st State) {
 		tr.assertBound[i] = true
 		env := tr.funcEnv(st)
 		blk := tr.curB
-		env.lookup = func(name string) (SV, bool) { return tr.varAt(blk, name, -1, st) }
+		cur := in
+		env.lookup = func(name string) (SV, bool) {
+			// locals assigned earlier in this block (debug references), then the dominators
+			idx := -1
+			for i, bi := range blk.Instrs {
+				if bi == cur {
+					idx = i
+				}
+			}
+			for i := idx - 1; i >= 0; i-- {
+				if dr, ok := blk.Instrs[i].(*ssa.DebugRef); ok && !dr.IsAddr {
+					if obj := dr.Object(); obj != nil && obj.Name() == name {
+						if _, done := tr.vals[dr.X]; done {
+							return env.goSV(tr.val(dr.X), dr.X.Type()), true
+						}
+					}
+				}
+			}
+			return tr.varAt(blk, name, -1, st)
+		}
 		for _, it := range tr.fc.Items {
 			if it.Kind == "let" {
 				env.lets[it.Name] = it.E
